@@ -382,6 +382,31 @@ fn s(x: &str) -> Sx {
 const ANNO_NS: &str = "http://www.w3.org/ns/anno/";
 const ANNO_CTX: &str = "http://www.w3.org/ns/anno.jsonld";
 
+/// every scheme is_iri() knows (and near misses) followed by text with a character that is not
+/// allowed in an IRI: such a string must never be taken for an IRI, whatever its scheme
+fn iri_like_pool(thorough: bool) -> Vec<&'static str> {
+    let schemes: &[&str] = if thorough {
+        &["_", "http", "https", "urn", "file", "_x", "_ ", "x_", "HTTP", "mailto", ""]
+    } else {
+        &["_", "http", "https", "urn", "file", "_x", "_ "]
+    };
+    let bad: &[&str] = if thorough {
+        &["\"", "\\", "\t", "\n", "\u{1}", " ", "\u{7f}", "\u{85}", "\\\"", "é😀"]
+    } else {
+        &["\"", "\\", "\u{1}", " ", "é"]
+    };
+    let mut v: Vec<&'static str> = Vec::new();
+    for sch in schemes {
+        for b in bad {
+            v.push(Box::leak(format!("{}:a{}b", sch, b).into_boxed_str()));
+        }
+        // the offending character right after the colon / at the very end
+        v.push(Box::leak(format!("{}:\"", sch).into_boxed_str()));
+        v.push(Box::leak(format!("{}:x\\", sch).into_boxed_str()));
+    }
+    v
+}
+
 fn string_pool() -> Vec<&'static str> {
     vec![
         "v", "", "two words", "say \"hi\"", "back\\slash", "a\\tb", "tab\there", "nl\nnl", "cr\rlf\n", "ctl\u{1}\u{1f}x",
@@ -391,7 +416,7 @@ fn string_pool() -> Vec<&'static str> {
     ]
 }
 
-fn value_pool() -> Vec<Sx> {
+fn value_pool(thorough: bool) -> Vec<Sx> {
     let mut v = vec![l(vec![a(0)]), l(vec![a(2), a(0)]), l(vec![a(2), a(1)])];
     for z in [0i64, 1, -1, 42, -17, 1000000007, -4611686018427387903, 4611686018427387903] {
         v.push(l(vec![a(3), a(z)]));
@@ -399,7 +424,7 @@ fn value_pool() -> Vec<Sx> {
     for q4 in [0i64, 1, 2, 3, 4, -1, -2, -6, 10, 401, -1000003, 4000000] {
         v.push(l(vec![a(4), a(q4)]));
     }
-    for t in string_pool() {
+    for t in string_pool().into_iter().chain(iri_like_pool(thorough)) {
         v.push(l(vec![a(1), s(t)]));
     }
     for t in ["2024-01-02T03:04:05+01:00", "1999-12-31T23:59:59.5Z", "2000-02-29T00:00:00-11:30"] {
@@ -550,8 +575,9 @@ pub fn generate(out: &mut Out, tier: &str, seed: u64) {
     let thorough = tier == "thorough";
     let ctx = Ctx::new();
     let cfgs = config_pool();
-    let values = value_pool();
-    let ids = id_pool();
+    let values = value_pool(thorough);
+    let mut ids = id_pool();
+    ids.extend(iri_like_pool(thorough));
     let keys = key_pool();
     let sets = set_pool();
 
@@ -735,6 +761,6 @@ pub fn generate(out: &mut Out, tier: &str, seed: u64) {
     }
 }
 
-pub const RULE: &str = "Stores are built through the public API (add_resource, add_dataset, annotate with every selector kind incl. the internal ranged ones that annotate() produces, remove_annotation) and every live annotation is exported with to_webannotation() under a configuration. Exhaustive part: every value of a pool (null, booleans, ints incl. +-(2^62-1), floats on the grid of quarters, 30 strings with quotes, backslashes, all kinds of control characters, DEL/C1, non-BMP, IRIs and near-IRIs, datetimes, nested lists) x every one of 10 configurations (prefixes, extra contexts, namespaces, target templates, automatic generated/generator) under a plain key, a namespaced key, a key of the anno namespace and as main-level predicate; every subset of the five main-level predicates x body present/absent x 3 configurations, with and without annotation id; every identifier of a pool of 17 (quotes, backslashes, controls, non-BMP, IRIs, template variables) as resource, annotation, data set and key identifier in a store with all selector kinds x every configuration; every key of 14 x every set id of 9 x every configuration; the known classes (non-finite floats, configuration strings that need escaping, duplicate member names). Then seeded random stores (1-3 resources, 2-9 annotations with random selector trees up to depth 2, 0-3 data items, removals) under a random configuration. Per exported annotation 5 sub-cases: tree (serde_json on the real output vs intended tree), this development's recogniser vs serde_json on the real output, token-equality of the model's string with the real output, text targets of the view vs annotation.textselections(), source/selector objects of the real output (serde_json) in order vs those text targets. Non-trivial: at least one export parsed as JSON. distinct = distinct model inputs.";
+pub const RULE: &str = "Stores are built through the public API (add_resource, add_dataset, annotate with every selector kind incl. the internal ranged ones that annotate() produces, remove_annotation) and every live annotation is exported with to_webannotation() under a configuration. Exhaustive part: every value of a pool (null, booleans, ints incl. +-(2^62-1), floats on the grid of quarters, 30 strings with quotes, backslashes, all kinds of control characters, DEL/C1, non-BMP, IRIs and near-IRIs, the same scheme x invalid-character strings as for identifiers, datetimes, nested lists) x every one of 10 configurations (prefixes, extra contexts, namespaces, target templates, automatic generated/generator) under a plain key, a namespaced key, a key of the anno namespace and as main-level predicate; every subset of the five main-level predicates x body present/absent x 3 configurations, with and without annotation id; every identifier of a pool of 17 (quotes, backslashes, controls, non-BMP, IRIs, template variables) plus every scheme is_iri() knows and near misses (_ http https urn file _x '_ ') x an invalid character (quote, backslash, control, space; after the colon, in the middle, at the end) as resource, annotation, data set and key identifier in a store with all selector kinds x every configuration; every key of 14 x every set id of 9 x every configuration; the known classes (non-finite floats, configuration strings that need escaping, duplicate member names). Then seeded random stores (1-3 resources, 2-9 annotations with random selector trees up to depth 2, 0-3 data items, removals) under a random configuration. Per exported annotation 5 sub-cases: tree (serde_json on the real output vs intended tree), this development's recogniser vs serde_json on the real output, token-equality of the model's string with the real output, text targets of the view vs annotation.textselections(), source/selector objects of the real output (serde_json) in order vs those text targets. Non-trivial: at least one export parsed as JSON. distinct = distinct model inputs.";
 
 pub const EXHAUSTIVE: bool = true;
